@@ -27,8 +27,6 @@ def gather(tier, run):
     seen, out = set(), []
     for fams in profiles.combos(2, FAMS):
         p = profiles.make_profile(fams)
-        p.max_files = 2
-        p.families.add('files')
         r = profiles.explore_budget(p, budget)
         run.add_bfs(p.name, r)
         for s, tr, d in r.states:
